@@ -54,7 +54,7 @@ RefOf(rel, A) ==
    conf |-> A.S.conf, final |-> Final(A.S), x |-> A.S.x]
 
 Obs(op, ev, par, dl, orc, clk0, s0, s1, A) ==
-  [op |-> op, ev |-> ev, par |-> par, dl |-> dl, ign |-> Opt.ignore, stale |-> 0, opq |-> FALSE,
+  [op |-> op, ev |-> ev, par |-> par, dl |-> dl, ign |-> Opt.ignore, stale |-> 0, opq |-> FALSE, tp |-> TpOf(IF A.exc = "" THEN A.steps ELSE <<>>),
    hasl2 |-> Opt.metas,
    l2 |-> IF ~Opt.metas THEN <<>>
           ELSE IF A.exc = "PropertyStatechartError" THEN Front(MetasL(A.log)) ELSE MetasL(A.log),
